@@ -3,10 +3,16 @@
    N, Z, positive, nat stay Coq datatypes (no Extract Constant of ours). *)
 From Coq Require Import Extraction ExtrOcamlBasic.
 From V.Lib Require Import Bytes Base64.
-From V.Model Require Import Signed.
+From V.Lib Require Import NetAddr.
+From V.Model Require Import Signed Cookies CookieStore Jar.
 Extraction Blacklist String List Nat Bytes Int Char Array Buffer Hashtbl Printf Sx Conv Adapters Driver.
 Set Extraction Optimize.
 Separate Extraction
   Bytes.digits_val Bytes.itoa Bytes.atoi Bytes.str_eqb Bytes.assoc
   Base64.decode Base64.encode
-  Signed.validate Signed.signed_value.
+  Signed.validate Signed.signed_value
+  NetAddr.split_host_port
+  Cookies.make_cookie Cookies.cookie_string Cookies.select_domain
+  CookieStore.store_save CookieStore.store_load CookieStore.store_clear CookieStore.split_cookie_name
+  CookieStore.load_cookie
+  Jar.jar_apply Jar.jar_cookies.
